@@ -28,6 +28,14 @@ WITNESS_TESTS = {
     "pairs_fn": ["batch_from_carryover", "batch_from_pipe", "pipe_arm_guard"],
     "what": "PUSH->PULL over tcp, burst of 240 numbered messages alternating 100 B and 300 KiB (> SNDBATCH_BYTES): received in the order sent",
   },
+  "c10_req_send_race": {
+    "file": "witness/c10_req_send_race.rs", "props": ["C10"], "pairs_fn": ["ReqSocket::send"],
+    "what": "8 tasks race send() on clones of one REQ socket in ReadyToSend (8 worker threads, up to 3000 rounds): exactly one succeeds per round",
+  },
+  "c10_rep_recv_race": {
+    "file": "witness/c10_rep_recv_race.rs", "props": ["C10"], "pairs_fn": ["RepSocket::recv", "RepSocket::recv_multipart"],
+    "what": "6 tasks race recv() on clones of one REP socket with requests of 4 peers queued (8 worker threads, up to 400 rounds): exactly one succeeds per round",
+  },
 }
 
 COMMON_TRUSTED = [
@@ -245,10 +253,26 @@ PROPS["C14"] = {
   "assumptions": ["fibre's try_send returns the refused item unchanged and never reports Sent"],
 }
 
+PROPS["C10"] = {
+  "units": ["reqrep"],
+  "kani_quick": [], "kani_thorough": [],
+  "claim": "Proved for every call history and every interleaving of calls on clones of one socket, on the verbatim REQ send / recv (its two critical sections as regions) / recv_multipart and REP recv / recv_multipart / send_multipart (its critical section as a region): "
+           "an out-of-turn call returns InvalidState and writes nothing to the protocol state; a call that fails writes nothing (REP; REQ send); a successful call performs exactly one write and it is the legal transition taken from the value found in the same critical section "
+           "(REQ: ReadyToSend -> ExpectingReply by send, ExpectingReply -> ReadyToSend by recv; REP: ReadyToReceive -> ReceivedRequest(peer) by recv, ReceivedRequest(peer) -> ReadyToReceive by send, which hands back exactly the remembered requester). "
+           "Interference is modelled, not ignored: at every acquisition of the state mutex the protected value is arbitrary except for the rely condition, and every write carries the guarantee condition as a proof obligation "
+           "(only send() leaves ReadyToSend and only while holding the send turn; only recv()/recv_multipart() leave ReadyToReceive and only while holding the recv turn). Two known findings are reported (a failed REQ recv resets the state).",
+  "level_note": "Rely/guarantee argument: the per-function obligations are machine-checked; the step from 'every write honours the guarantee' to 'the rely holds between my critical sections' is the standard meta-argument (DESIGN.md 8b) and needs the turn lock to be a mutual exclusion (tokio::sync::Mutex, trusted). "
+                "Not covered: the tokio::select! body of REQ recv (syntactic scan: its only state access is a read), REP's wire assembly after the take (routing prefix + payload), REQ's reply matching against the request's peer, fairness of the turn locks.",
+  "technique": "contract-based deductive verification (Verus on extracted async fns and regions; ghost write log + rely/guarantee conditions on the state mutex) with two recorded known findings; witness tests replayed on real sockets",
+  "trusted_base": COMMON_TRUSTED + ["units/reqrep.py glue: CoreRef/LoadBalancer/Ingress/IfaceRef/Notifier as signature-only stand-ins; TurnLock = tokio::sync::Mutex<()> with ghost `held`; verif_state_acquire (havoc under rely) is the lock model R6h",
+                                     "tokio::sync::Mutex provides mutual exclusion and releases on drop"],
+  "assumptions": ["all accesses to the protocol state go through the functions under contract (syntactic scans of `self.state` per function; ReqSocket/RepSocket fields are private)"],
+}
+
 NOT_BUILT = "check not built yet in this revision (planned, see DESIGN.md section 9)"
 NOT_APPLICABLE = {
  
-  "C09": NOT_BUILT, "C10": NOT_BUILT, 
+  "C09": NOT_BUILT,
   "C08": "lost wake-ups are an invariant over interleavings of individual atomic/channel steps plus a liveness claim; Kani has no threads and Verus would need its own atomic/permission types, i.e. a re-implementation (a model), not the code that runs (DESIGN.md section 6)",
   "C12": "SubscriptionTrie is Arc<RwLock<TrieNode>> nodes with HashMap children and an AtomicUsize: no abstract view without rewriting it (Verus), parking_lot crashes kani-compiler 0.68; non-blocking fan-out is a schedule property",
   "C15": "the deciding state (bytes framed but unwritten in another actor, kernel buffers, the close deadline) spans actors and the OS; no contract over one function expresses 'accepted messages are transmitted within LINGER'",
